@@ -49,14 +49,17 @@ def run(res, replay=None):
             d["burst"] = case.get("members") or case.get("seats")
         return d
 
-    plans = [("gen", None, 160 if q else 4000, 40 if q else 400, None), ("big", "big", 40 if q else 1500, 40 if q else 300, None)]
+    plans = [("gen", None, 160 if q else 4000, 40 if q else 400, None), ("big", "big", 40 if q else 1500, 40 if q else 300, None),
+             # a full table, one caller swapping a member by batch update while the others reserve for newcomers, up to 150 rounds per table
+             ("swap", "swap", 24 if q else 600, 12 if q else 100, None)]
     return standard_flow(
         res, hx="conc", corr="Conc_run", n=0, replay=replay, plans=None if replay else plans,
         signature=lambda c, s: None, describe=describe, stats=stats, unit=unit,
         rule="bursts released together from a barrier on the real engine: (members) PlayerReserve incl. re-buys, duplicate reservations and explicit "
              "conflicting seats / PlayersLeave / UpdateTablePlayers; (seats) RandomAssignSeats / AssignSeats on conflicting seats / RemoveSeats on a bare "
              "seat manager; (actions) at every turn of real hands every participant submits an action at once, the player to act twice, against a backend "
-             "that may take 1-3 ms per call; bursts of 2..6 callers are explained by trying every order on the model, larger ones (up to 47) by accounting; "
+             "that may take 1-3 ms per call; bursts of 2..6 callers are explained by trying every order on the model, larger ones (up to 47) by a search over "
+             "the accepted operations (refused ones are placed where the model refuses them) when at most 7 were accepted, else by accounting; "
              "distinct = distinct (kind, operations, results); non-trivial = at least one accepted and one refused call",
         nontrivial=lambda c: len({json.dumps(x) for x in ((c.get("members") or c.get("seats") or {}).get("res") or [s["ok"] for t in (c.get("actions") or {}).get("turns", []) for s in t["subs"]])}) > 1,
         key=lambda c: json.dumps([c["kind"], (c.get("members") or {}).get("ops"), (c.get("members") or {}).get("res"), (c.get("seats") or {}).get("ops"), (c.get("seats") or {}).get("res"),
